@@ -44,6 +44,12 @@ ASSUMPTIONS = [
     "collections.deque append/popleft/clear and bytearray.extend/slicing as modelled (queue = list of octet strings)",
     "the theorems quantify over all octet streams, cut sets and append/parse interleavings; the tie enumerates all "
     "2^(n-1) fragmentations only for short streams and all single/double cuts of longer ones",
+    "sizes: every packet length 7..1100 (thorough ..4200), +-8 of every multiple of 256 up to 4 KiB, every multiple of "
+    "4 KiB (thorough 1 KiB) up to the largest packet (65542 octets); backlogs queued before one parse call up to 1 MiB "
+    "(thorough 2 MiB), incl. one-octet reads; large backlogs (op 902) go through Model/ParserFast.v, proved equal to the "
+    "mirror of the code for every queue and operation list (C13_run_ops_fast_eq)",
+    "the adapter overwrites the caller's consumed chunk objects and the packets handed out after every parse call: the "
+    "model's values are values, so any sharing of memory between queue, results and caller buffers is a disagreement",
 ]
 TRUSTED = []
 ORACLE_LIMIT = {"quick": 40000, "thorough": 60000}   # the exhaustive streams are oracle-checked in full in the quick tier
